@@ -401,3 +401,270 @@ Lemma origin_other_default_port_differs :
   origin_eqb (origin_of (mkUrl "https" "h.test:80" "" None "")) (origin_of (mkUrl "https" "h.test" "" None "")) = false /\
   origin_eqb (origin_of (mkUrl "http" "h.test:80" "" None "")) (origin_of (mkUrl "http" "H.TEST" "" None "")) = true.
 Proof. vm_compute. repeat split. Qed.
+
+(* ------------------------------------------------------------------ appending a plain suffix (".prov") *)
+Definition plain_byte (c : ascii) : bool := is_alpha c || is_digit c || mem_byte c ".-_".
+
+Lemma plain_byte_facts c : plain_byte c = true ->
+  is_ctl c = false /\ Ascii.eqb c "#" = false /\ Ascii.eqb c "?" = false /\ Ascii.eqb c "/" = false /\
+  Ascii.eqb c ":" = false /\ Ascii.eqb c "%" = false /\ Ascii.eqb c "*" = false.
+Proof. ascii_cases c. Qed.
+
+Lemma plain_not_mem t c : all_bytes plain_byte t = true ->
+  (c = "#" \/ c = "?" \/ c = "/" \/ c = ":" \/ c = "%" \/ c = "*")%char -> mem_byte c t = false.
+Proof.
+  intros Ht Hc. eapply all_bytes_not_mem; [exact Ht|].
+  destruct Hc as [->|[->|[->|[->|[->| ->]]]]]; reflexivity.
+Qed.
+
+(* the stages of go_split *)
+Definition split_rest (scheme rest : string) : split_res :=
+  if negb (starts_with "/" rest) && negb (String.eqb scheme "") then SOk scheme None "" ""
+  else if negb (starts_with "/" rest) && mem_byte ":" (fst (cut "/" rest)) then SErr
+  else if (negb (String.eqb scheme "") || negb (starts_with "///" rest)) && starts_with "//" rest then
+    let a := substring 2 (String.length rest - 2) rest in
+    let '(authority, after) := cut "/" a in
+    let path := match after with Some p => String "/" p | None => EmptyString end in
+    match parse_authority authority with
+    | None => SErr
+    | Some (us, h) => SOk scheme us h path
+    end
+  else SOk scheme None "" rest.
+
+Definition split_u (u : string) : split_res :=
+  if has_ctl u then SErr
+  else if String.eqb u "*" then SOk "" None "" "*"
+  else match get_scheme_from true u with
+       | GsErr => SErr
+       | GsSome sc r => split_rest (lower sc) (fst (cut "?" r))
+       | GsNone => split_rest "" (fst (cut "?" u))
+       end.
+
+Lemma go_split_stages raw : go_split raw = split_u (fst (cut "#" raw)).
+Proof.
+  unfold go_split, split_u. destruct (has_ctl _); [reflexivity|]. destruct (String.eqb _ "*"); [reflexivity|].
+  destruct (get_scheme_from true _); reflexivity.
+Qed.
+
+Lemma cut_app_mem c a b : mem_byte c a = true -> fst (cut c (a ++ b)) = fst (cut c a).
+Proof.
+  induction a as [|x a IH]; simpl; [discriminate|].
+  destruct (Ascii.eqb x c) eqn:E; [reflexivity|]. simpl. intro H.
+  specialize (IH H). destruct (cut c (a ++ b)) as [p q], (cut c a) as [p' q']. simpl in *. rewrite IH. reflexivity.
+Qed.
+
+Lemma cut_app_mem_snd c a b x y : cut c a = (x, Some y) -> cut c (a ++ b) = (x, Some (y ++ b)).
+Proof.
+  revert x y. induction a as [|z a IH]; simpl; [discriminate|].
+  intros x y. destruct (Ascii.eqb z c); [intro H; injection H as <- <-; reflexivity|].
+  destruct (cut c a) as [p q]. intro H. injection H as <- ->. rewrite (IH p y eq_refl). reflexivity.
+Qed.
+
+Lemma cut_snd_none_nomem c a x : cut c a = (x, None) -> mem_byte c a = false /\ x = a.
+Proof.
+  revert x. induction a as [|z a IH]; simpl; [intros x H; injection H as <-; auto|].
+  intro x. destruct (Ascii.eqb z c); [discriminate|]. destruct (cut c a) as [p q].
+  intro H. injection H as <- ->. destruct (IH p eq_refl) as [H1 H2]. subst. auto.
+Qed.
+
+(* getScheme and a suffix without ':' *)
+Lemma gs_no_colon f x : mem_byte ":" x = false -> get_scheme_from f x = GsNone.
+Proof.
+  revert f. induction x as [|c x IH]; intro f; simpl; [reflexivity|].
+  intro H. apply orb_false_iff in H as [Hc Hx].
+  rewrite (IH false Hx). rewrite Hc.
+  destruct (is_alpha c || scheme_tail_byte c && negb f); [reflexivity|].
+  destruct (scheme_tail_byte c); reflexivity.
+Qed.
+
+Lemma gs_app_some f s t sc r : get_scheme_from f s = GsSome sc r -> get_scheme_from f (s ++ t) = GsSome sc (r ++ t).
+Proof.
+  revert f sc r. induction s as [|c s IH]; intros f sc r; simpl; [discriminate|].
+  destruct (is_alpha c || scheme_tail_byte c && negb f).
+  - destruct (get_scheme_from false s) as [| |sc0 r0] eqn:E; try discriminate.
+    intro H. injection H as <- <-. rewrite (IH false sc0 r0 E). reflexivity.
+  - destruct (scheme_tail_byte c); [discriminate|].
+    destruct (Ascii.eqb c ":"); [|discriminate]. destruct f; [discriminate|].
+    intro H. injection H as <- <-. reflexivity.
+Qed.
+
+Lemma gs_false_not_err s : get_scheme_from false s <> GsErr.
+Proof.
+  induction s as [|c s IH]; simpl; [discriminate|].
+  destruct (is_alpha c || scheme_tail_byte c && true).
+  - destruct (get_scheme_from false s); try discriminate. exact IH.
+  - destruct (scheme_tail_byte c); [discriminate|]. destruct (Ascii.eqb c ":"); discriminate.
+Qed.
+
+Lemma gs_app_none f s t : get_scheme_from f s = GsNone -> mem_byte ":" t = false -> get_scheme_from f (s ++ t) = GsNone.
+Proof.
+  revert f. induction s as [|c s IH]; intros f; simpl; [intros _ H; apply gs_no_colon; exact H|].
+  destruct (is_alpha c || scheme_tail_byte c && negb f).
+  - destruct (get_scheme_from false s) as [| |sc0 r0] eqn:E; try discriminate.
+    intros _ Ht. rewrite (IH false E Ht). reflexivity.
+  - destruct (scheme_tail_byte c); [reflexivity|].
+    destruct (Ascii.eqb c ":"); [destruct f; discriminate|reflexivity].
+Qed.
+
+Lemma prefix_cons a p b s : String.prefix (String a p) (String b s) = if Ascii.eqb a b then String.prefix p s else false.
+Proof.
+  change (String.prefix (String a p) (String b s)) with (if ascii_dec a b then String.prefix p s else false).
+  destruct (ascii_dec a b) as [->|N]; [rewrite Ascii.eqb_refl; reflexivity|].
+  apply Ascii.eqb_neq in N. rewrite N. reflexivity.
+Qed.
+
+Lemma prefix_nil s : String.prefix "" s = true.
+Proof. destruct s; reflexivity. Qed.
+
+Lemma prefix_cons_nil a p : String.prefix (String a p) "" = false.
+Proof. reflexivity. Qed.
+
+Lemma starts_slash_app c r t : String.prefix "/" (String c r ++ t) = String.prefix "/" (String c r).
+Proof.
+  change (String c r ++ t) with (String c (r ++ t)).
+  rewrite !prefix_cons, !prefix_nil. reflexivity.
+Qed.
+
+(* a prefix made of slashes and a suffix without slash *)
+Lemma slashes_prefix_app p r t :
+  all_bytes (fun c => Ascii.eqb c "/") p = true -> mem_byte "/" t = false ->
+  String.prefix p (r ++ t) = String.prefix p r.
+Proof.
+  revert r. induction p as [|x p IH]; intros r Hp Ht.
+  - rewrite !prefix_nil. reflexivity.
+  - cbn [all_bytes] in Hp. apply andb_true_iff in Hp as [Hx Hp]. apply Ascii.eqb_eq in Hx. subst x.
+    destruct r as [|c r].
+    + cbn [append]. rewrite prefix_cons_nil. destruct t as [|y t]; [reflexivity|].
+      rewrite prefix_cons. cbn [mem_byte] in Ht. apply orb_false_iff in Ht as [Hy _].
+      rewrite Ascii.eqb_sym, Hy. reflexivity.
+    + change (String c r ++ t) with (String c (r ++ t)). rewrite !prefix_cons.
+      destruct (Ascii.eqb "/" c); [apply IH; assumption|reflexivity].
+Qed.
+
+Lemma split_rest_append scheme rest t sc us h p :
+  all_bytes plain_byte t = true ->
+  split_rest scheme rest = SOk sc us h p -> p <> "" ->
+  exists p', split_rest scheme (rest ++ t) = SOk sc us h p' /\ p' <> "".
+Proof.
+  intros Ht H Hp.
+  assert (Tslash : mem_byte "/" t = false) by (apply plain_not_mem; auto).
+  assert (Tcolon : mem_byte ":" t = false) by (apply plain_not_mem; auto 6).
+  destruct rest as [|c r].
+  { (* empty rest: the path would be empty *)
+    unfold split_rest in H. simpl in H. destruct (String.eqb scheme ""); simpl in H; injection H as _ _ _ <-; congruence. }
+  unfold split_rest, starts_with in *. rewrite starts_slash_app.
+  destruct (String.prefix "/" (String c r)) eqn:Es; cbn [negb andb] in *.
+  - (* rest starts with "/" *)
+    rewrite !(slashes_prefix_app _ (String c r) t) by (auto; reflexivity).
+    destruct ((negb (String.eqb scheme "") || negb (String.prefix "///" (String c r))) && String.prefix "//" (String c r)) eqn:EA.
+    + pose proof EA as EA0. apply andb_true_iff in EA as [_ E2].
+      destruct r as [|c2 r2]; [rewrite prefix_cons, prefix_cons_nil in E2; destruct (Ascii.eqb "/" c); discriminate|].
+      assert (c = "/"%char /\ c2 = "/"%char) as [-> ->].
+      { rewrite !prefix_cons in E2. destruct (Ascii.eqb_spec "/" c) as [<-|]; [|discriminate].
+        destruct (Ascii.eqb_spec "/" c2) as [<-|]; [auto|discriminate]. }
+      change (String "/" (String "/" r2) ++ t) with (String "/" (String "/" (r2 ++ t))).
+      rewrite substring_skip2 in *.
+      destruct (cut "/" r2) as [authority after] eqn:Ec.
+      destruct after as [aft|].
+      * rewrite (cut_app_mem_snd _ _ t _ _ Ec).
+        destruct (parse_authority authority) as [[us0 h0]|]; [|discriminate].
+        injection H as <- <- <- <-. eexists. split; [reflexivity|discriminate].
+      * destruct (parse_authority authority) as [[us0 h0]|]; [|discriminate].
+        injection H as _ _ _ <-. congruence.
+    + injection H as <- <- <- <-. eexists. split; [reflexivity|discriminate].
+  - (* relative reference *)
+    destruct (negb (String.eqb scheme "")) eqn:En; cbn [andb] in *.
+    { injection H as _ _ _ <-. congruence. }
+    assert (Hs2 : forall x, String.prefix "//" (String c x) = false).
+    { intro x. rewrite prefix_cons in *. rewrite prefix_nil in Es.
+      destruct (Ascii.eqb "/" c); [discriminate|reflexivity]. }
+    destruct (mem_byte ":" (fst (cut "/" (String c r)))) eqn:Ecol; [discriminate|].
+    assert (Ecol' : mem_byte ":" (fst (cut "/" (String c r ++ t))) = false).
+    { destruct (mem_byte "/" (String c r)) eqn:Em.
+      - rewrite (cut_app_mem _ _ _ Em). exact Ecol.
+      - rewrite (cut_app_nomem _ _ _ Em). cbn [fst]. rewrite (cut_nomem _ _ Tslash). cbn [fst].
+        rewrite (cut_nomem _ _ Em) in Ecol. cbn [fst] in Ecol.
+        rewrite mem_byte_app, Ecol, Tcolon. reflexivity. }
+    rewrite Ecol'.
+    change (String c r ++ t) with (String c (r ++ t)). rewrite !Hs2 in *. rewrite !andb_false_r in *.
+    injection H as <- <- <- <-. eexists. split; [reflexivity|discriminate].
+Qed.
+
+Lemma has_ctl_app a b : has_ctl (a ++ b) = has_ctl a || has_ctl b.
+Proof. unfold has_ctl. rewrite all_bytes_app, negb_andb. reflexivity. Qed.
+
+Lemma plain_no_ctl t : all_bytes plain_byte t = true -> has_ctl t = false.
+Proof.
+  intro H. unfold has_ctl. apply negb_false_iff. eapply all_bytes_impl; [|exact H].
+  intros c Hc. apply plain_byte_facts in Hc as [-> _]. reflexivity.
+Qed.
+
+Lemma split_u_append u t sc us h p :
+  all_bytes plain_byte t = true ->
+  split_u u = SOk sc us h p -> p <> "" ->
+  exists p', split_u (u ++ t) = SOk sc us h p' /\ p' <> "".
+Proof.
+  intros Ht H Hp.
+  destruct t as [|t0 tt] eqn:Et; [rewrite app_nil_r_s; eauto|]. rewrite <- Et in *.
+  assert (Tq : mem_byte "?" t = false) by (apply plain_not_mem; auto).
+  assert (Tcolon : mem_byte ":" t = false) by (apply plain_not_mem; auto 6).
+  unfold split_u in *. rewrite has_ctl_app, (plain_no_ctl _ Ht), orb_false_r.
+  destruct (has_ctl u); [discriminate|].
+  destruct (String.eqb u "*") eqn:Estar.
+  - apply String.eqb_eq in Estar. subst u. injection H as <- <- <- <-.
+    assert (Es : String.eqb ("*" ++ t) "*" = false) by (rewrite Et; simpl; reflexivity).
+    rewrite Es.
+    assert (Eg : get_scheme_from true ("*" ++ t) = GsNone) by reflexivity. rewrite Eg.
+    rewrite (cut_nomem "?" ("*" ++ t)) by (simpl; exact Tq). cbn [fst].
+    unfold split_rest. simpl starts_with. cbn [negb andb String.eqb].
+    assert (Ec : mem_byte ":" (fst (cut "/" ("*" ++ t))) = false).
+    { rewrite (cut_nomem "/" ("*" ++ t)) by (simpl; apply plain_not_mem; auto). simpl. exact Tcolon. }
+    rewrite Ec. simpl. eexists. split; [reflexivity|discriminate].
+  - assert (Es : String.eqb (u ++ t) "*" = false).
+    { destruct u as [|c u]; [simpl in H; injection H as _ _ _ <-; congruence|].
+      simpl. simpl in Estar. destruct (Ascii.eqb c "*"); [|reflexivity].
+      destruct u; [discriminate|reflexivity]. }
+    rewrite Es.
+    destruct (get_scheme_from true u) as [| |sc0 r0] eqn:Eg; [discriminate| |].
+    + rewrite (gs_app_none _ _ _ Eg Tcolon).
+      destruct (mem_byte "?" u) eqn:Em.
+      * rewrite (cut_app_mem _ _ _ Em). eauto.
+      * rewrite (cut_app_nomem _ _ _ Em). cbn [fst]. rewrite (cut_nomem _ _ Tq). cbn [fst].
+        rewrite (cut_nomem _ _ Em) in H. cbn [fst] in H.
+        eapply split_rest_append; eauto.
+    + rewrite (gs_app_some _ _ t _ _ Eg).
+      destruct (mem_byte "?" r0) eqn:Em.
+      * rewrite (cut_app_mem _ _ _ Em). eauto.
+      * rewrite (cut_app_nomem _ _ _ Em). cbn [fst]. rewrite (cut_nomem _ _ Tq). cbn [fst].
+        rewrite (cut_nomem _ _ Em) in H. cbn [fst] in H.
+        eapply split_rest_append; eauto.
+Qed.
+
+(* For EVERY URL string with a non-empty path: appending ".prov" (any suffix of letters,
+   digits, '.', '-', '_') leaves scheme, userinfo and host as they are - the provenance file
+   of a chart is on the chart's origin. *)
+Theorem go_split_append_plain s t sc us h p :
+  all_bytes plain_byte t = true ->
+  go_split s = SOk sc us h p -> p <> "" ->
+  exists p', go_split (s ++ t) = SOk sc us h p' /\ p' <> "".
+Proof.
+  intros Ht H Hp. rewrite go_split_stages in *.
+  destruct (mem_byte "#" s) eqn:Em.
+  - rewrite (cut_app_mem _ _ _ Em). eauto.
+  - rewrite (cut_app_nomem _ _ _ Em). cbn [fst].
+    rewrite (cut_nomem "#" t) by (apply plain_not_mem; auto). cbn [fst].
+    rewrite (cut_nomem _ _ Em) in H. cbn [fst] in H.
+    eapply split_u_append; eauto.
+Qed.
+
+Lemma prov_plain : all_bytes plain_byte ".prov" = true.
+Proof. reflexivity. Qed.
+
+Corollary go_split_prov s sc us h p :
+  go_split s = SOk sc us h p -> p <> "" ->
+  exists p', go_split (s ++ ".prov") = SOk sc us h p' /\ p' <> "".
+Proof. apply go_split_append_plain. reflexivity. Qed.
+
+Lemma go_split_prov_needs_path :
+  go_split "http://host" = SOk "http" None "host" "" /\ go_split ("http://host" ++ ".prov") = SOk "http" None "host.prov" "".
+Proof. split; vm_compute; reflexivity. Qed.
